@@ -44,7 +44,13 @@ RULE = ("(a) exhaustive: every boolean mask of every shape with H*W <= 6 (quick)
         "as int arrays / lists of lists; sub-size maps as int32 arrays / lists; instances of user SUBCLASSES of Grid2D, OverSamplingUniform, "
         "OverSamplingIterate, Grid2DOverSampled. After every history also: every array a user function returned and the attributes of every "
         "OverSampling* configuration object / OverSamplerIterate must be unchanged. Integer-valued functions on non-dyadic geometry are skipped "
-        "(and counted) when a sub-pixel centre lies within 1e-6 of a jump. distinct = distinct JSON input.")
+        "(and counted) when a sub-pixel centre lies within 1e-6 of a jump. (g) HELD points: @over_sample on Grid2DOverSampled(grid=held, over_sampler) with "
+        "held = the sampler's uniform sub-centres displaced by a dyadic deflection field / a smooth linear map / a constant shift / in one pixel only, permuted "
+        "within each pixel, reversed, or arbitrary points (as Grid2DIrregular, arithmetic result on the sampler's own grid, ndarray, list, user subclass), "
+        "int- and map-constructed samplers, 1x1 masks, as steps of the one-sampler histories and shared sequences (several different held grids through one "
+        "sampler), tolerance stream; @over_sample on Grid2D objects whose values are not the pixel centres of their mask (sub-size 1 / all-ones map / map / "
+        "iterate). The held points must be unchanged after the call; in 30% of the cases the user then edits held points IN PLACE and calls the same profile "
+        "with the SAME Grid2DOverSampled again (second result = the model on the edited points, first result unchanged). distinct = distinct JSON input.")
 EXHAUSTIVE = {
     "quick": "all boolean masks of all shapes with H*W <= 6 (394 masks): over-sampled grid at uniform sub-size 1 and 2 (and 4 for every third mask); "
              "slim_for_sub_slim and binning of distinct integers at one of these sub-sizes per mask (rotating)",
@@ -347,6 +353,56 @@ def vanishing_poly(rng, m, ps, og):
     other = [[0, 0, fs(F(rng.randint(1, 8), 4))], [0, 1, fs(F(rng.randint(-4, 4), 4))]] if rng.random() < 0.5 else [[0, 0, "1"]]
     t = poly_mul(base, other)
     return {"absy": False, "absx": False, "terms": t} if t else None
+def ref_subpoints(m, ps, og, ss):
+    """the uniform sub-pixel centres, one block (list of points) per unmasked pixel -- used only to BUILD held grids"""
+    psf = (F(ps[0]), F(ps[1])); ogf = (F(og[0]), F(og[1])); out = []
+    for p, s in zip(unmasked(m), ss):
+        cy, cx = ref_centre(m, psf, ogf, p)
+        out.append([(cy + psf[0] / 2 - (a + F(1, 2)) * psf[0] / s, cx - psf[1] / 2 + (b + F(1, 2)) * psf[1] / s) for a in range(s) for b in range(s)])
+    return out
+HELD_KINDS = ["deflect", "deflect", "deflect", "smooth", "smooth", "shift", "onepix", "perm", "arb", "rev", "uniform"]
+def displaced(rng, pts, hk):
+    """a list of points displaced as a ray-traced / deflected grid is: every displacement is a small dyadic (exact in double)"""
+    d = lambda: F(rng.randint(-16, 16), 8)
+    if hk == "deflect": return [(y + d(), x + d()) for y, x in pts]                  # an arbitrary deflection field
+    if hk == "smooth":                                                               # beta = theta - alpha(theta), alpha linear
+        a, b, c, e = (F(rng.choice([-2, -1, 1, 2, 3]), 4) for _ in range(4)); oy, ox = d(), d()
+        return [(y - (a * y + b * x + oy), x - (c * y + e * x + ox)) for y, x in pts]
+    if hk == "shift":
+        dy, dx = d(), d()
+        if dy == 0 and dx == 0: dy = F(1, 8)
+        return [(y + dy, x + dx) for y, x in pts]
+    if hk == "arb": return [(F(rng.randint(-32, 32), 8), F(rng.randint(-32, 32), 8)) for _ in pts]
+    if hk == "rev": return list(pts[::-1])
+    return list(pts)
+def held_points(rng, m, ps, og, ss, hk=None):
+    """the points a Grid2DOverSampled holds: the sampler's uniform sub-pixel centres displaced (deflection field, smooth lens-like map,
+    constant shift, ONE pixel's points only), permuted within each pixel, reversed as a whole, or arbitrary points"""
+    hk = hk or rng.choice(HELD_KINDS)
+    blocks = ref_subpoints(m, ps, og, ss)
+    if hk == "perm":
+        for b in blocks: rng.shuffle(b)
+    elif hk == "onepix" and blocks:
+        i = rng.randrange(len(blocks)); blocks[i] = displaced(rng, blocks[i], rng.choice(["deflect", "shift"]))
+    pts = [p for b in blocks for p in b]
+    pts = displaced(rng, pts, hk)
+    return [[fs(y), fs(x)] for y, x in pts], hk
+def shifted_values(rng, m, ps, og):
+    """values of a Grid2D that are NOT the pixel centres of its mask (a deflected / shifted image-plane grid)"""
+    psf = (F(ps[0]), F(ps[1])); ogf = (F(og[0]), F(og[1]))
+    cs = [ref_centre(m, psf, ogf, p) for p in unmasked(m)]
+    return [[fs(y), fs(x)] for y, x in displaced(rng, cs, rng.choice(["deflect", "deflect", "smooth", "shift", "arb", "rev"]))]
+HELD_CONT = ["irr", "irr", "arith", "arith", "nd", "irr_sub", "list"]
+def rand_held(rng, m, ps, og, ss, exact=True, hk=None):
+    if not exact and hk is None: hk = rng.choice([k for k in HELD_KINDS if k != "smooth"])      # absolute tolerance 1e-9: keep |coordinates| small
+    pts, hk = held_points(rng, m, ps, og, ss, hk)
+    return {"op": "held", "m": m, "ps": ps, "og": og, "ss": ss, "pts": pts, "hk": hk,
+            "f": maybe_scaled(rng, rand_fun(rng, m, ps, og)) if exact else rand_fun(rng, p_int=0.0),
+            "cont": rng.choice(HELD_CONT) if exact else rng.choice(["irr", "nd"]), "read_first": rng.random() < 0.4, "cls_sub": rng.random() < 0.15,
+            "again": rand_again(rng) if exact and rng.random() < 0.3 else None}
+def rand_again(rng):
+    """in-place edits of the held points between two calls with the SAME Grid2DOverSampled: (index, dy, dx)"""
+    return [[rng.randrange(1024), fs(F(rng.randint(-16, 16), 8)), fs(F(rng.choice([-8, -1, 1, 4, 24]), 8))] for _ in range(rng.choice([1, 1, 2, 5]))]
 def rand_steps(rng):
     n = rng.choice([1, 2, 2, 3, 3, 4])
     if rng.random() < 0.6:
@@ -414,6 +470,24 @@ def gen_inputs(tier, rng):
                "via": rng.choice(["from_mask", "from_mask", "dataset", "dataset", "dataset_nu", "dataset_pixgrid",
                                   "derived_arith", "derived_rewrap", "derived_native_slim", "subclass"]),
                "mder": rng.choice([None, None, None, "array", "grid"]), "gint": rng.random() < 0.2}
+    # (g) HELD points: the decorator on Grid2DOverSampled(grid=held, over_sampler) with held != the sampler's own uniform centres, and
+    #     on a Grid2D whose values are not the pixel centres of its mask; uniform (int-constructed) and per-pixel maps
+    for k in range(900 if big else 90):
+        m = rand_mask(rng, 5, 5, 10) if k % 6 else [[False]]; n = len(unmasked(m)); ps, og = rand_geo(rng)
+        as_int = rng.random() < 0.35
+        ss = [rng.choice([1, 2, 2, 4, 8])] * n if as_int else [rng.choice([1, 1, 2, 2, 4, 4, 8]) for _ in range(n)]
+        h = rand_held(rng, m, ps, og, ss); h["int"] = as_int
+        if not as_int: h.update({"fl": rng.random() < 0.3, "ssder": rng.choice([None, None, "native_in", "arith"]), "sskind": rng.choice([None, None, "int32", "list"])})
+        h["mder"] = rng.choice([None, None, None, "array", "grid"])
+        yield h
+        if k % 3 == 0:
+            r = rng.random()
+            if r < 0.4: os = {"kind": "int", "s": rng.choice([1, 1, 2, 4])}
+            elif r < 0.7: os = {"kind": "map", "ss": [1] * n}
+            elif r < 0.85: os = {"kind": "map", "ss": ss}
+            else: thr, rel = rand_thr(rng); os = {"kind": "iter", "thr": thr, "rel": rel, "steps": rng.choice([[2, 4], [2], [1, 2]])}
+            yield {"op": "decor", "m": m, "ps": ps, "og": og, "os": os, "f": rand_fun(rng, m, ps, og), "vals": shifted_values(rng, m, ps, og),
+                   "via": rng.choice(["shift_arith", "shift_rewrap", "shift_dataset", "shift_subclass"])}
     # dataset pixelization default (sub_size 4)
     for _ in range(40 if big else 8):
         m = rand_mask(rng, 4, 4, 8); ps, og = rand_geo(rng)
@@ -520,8 +594,12 @@ def gen_inputs(tier, rng):
             r = rng.random()
             if r < 0.2: st.append({"do": "grid"})
             elif r < 0.55: st.append({"do": "via", "f": maybe_scaled(rng, rand_fun(rng, m, ps, og)), "via": rng.choice(["sampler", "sampler", "oversampled"]), "obj": rng.choice([None, 1])})
-            elif r < 0.65: st.append({"do": "slim"})
-            elif r < 0.75: st.append({"do": "native"})
+            elif r < 0.62: st.append({"do": "slim"})
+            elif r < 0.68: st.append({"do": "native"})
+            elif r < 0.78:
+                pts, hk = held_points(rng, m, ps, og, cur)
+                st.append({"do": "held", "pts": pts, "hk": hk, "f": maybe_scaled(rng, rand_fun(rng, m, ps, og)), "cont": rng.choice(HELD_CONT), "cls_sub": rng.random() < 0.15,
+                           "again": rand_again(rng) if rng.random() < 0.3 else None})
             elif r < 0.85: st.append({"do": "areas"})
             else: st.append(binstep())
         yield {"op": "hsampler", "m": m, "ps": ps, "og": og, "ss": ss, "int": as_int, "fl": (not as_int) and rng.random() < 0.3,
@@ -546,20 +624,23 @@ def gen_inputs(tier, rng):
         m = rand_mask(rng, 4, 4, 8); n = len(unmasked(m)); ps, og = rand_geo(rng); ps2, og2 = rand_geo(rng)
         variants = [(m, ps, og), (permuted_mask(rng, m), ps, og), (m, ps, og2), (permuted_mask(rng, m), ps2, og), (m, ps, og)]
         rng.shuffle(variants); variants = variants[:rng.choice([3, 4])]
-        kind = rng.choice(["grid", "grid", "bin", "idx", "viafunc", "decor", "iter", "mixed"])
+        kind = rng.choice(["grid", "grid", "bin", "idx", "viafunc", "held", "held", "decor", "iter", "mixed"])
         s0 = rng.choice([1, 2, 4]); ss = [s0] * n if rng.random() < 0.4 else [rng.choice([1, 2, 2, 4]) for _ in range(n)]
         f = rand_fun(rng, m, ps, og); via = rng.choice(["class", "util"])
         thr, rel = rand_thr(rng); steps = rng.choice([[2, 4], [2, 4, 8], [2], [4, 8]])
         dt = rng.choice(BIN_DT); arr = rand_subvalues(rng, sum(s * s for s in ss), dt)
         st = []
         for (mm, pp, oo) in variants:
-            kk = rng.choice(["grid", "bin", "idx", "viafunc", "decor", "iter"]) if kind == "mixed" else kind
+            kk = rng.choice(["grid", "bin", "idx", "viafunc", "held", "decor", "iter"]) if kind == "mixed" else kind
             if kk == "grid": st.append({"op": "grid", "m": mm, "ps": pp, "og": oo, "ss": ss, "via": via, "int": False})
             elif kk == "bin": st.append({"op": "bin", "m": mm, "ss": ss, "arr": arr, "dt": dt, "via": via, "int": False})
             elif kk == "idx":
                 st.append({"op": "slimsub", "m": mm, "ss": ss, "via": via, "int": False})
                 st.append({"op": "nativesub", "m": mm, "ss": ss, "via": via, "int": False})
             elif kk == "viafunc": st.append({"op": "viafunc", "m": mm, "ps": pp, "og": oo, "ss": ss, "f": f, "via": "sampler"})
+            elif kk == "held":      # one sampler (shared), several DIFFERENT held grids, the sampler's own grid read in between
+                h = rand_held(rng, mm, pp, oo, ss); h["f"] = f; st.append(h)
+                if rng.random() < 0.4: st.append({"op": "viafunc", "m": mm, "ps": pp, "og": oo, "ss": ss, "f": f, "via": "sampler"})
             elif kk == "decor":
                 os = rng.choice([{"kind": "int", "s": s0}, {"kind": "map", "ss": ss}])
                 st.append({"op": "decor", "m": mm, "ps": pp, "og": oo, "os": os, "f": f, "via": rng.choice(["from_mask", "dataset"])})
@@ -594,6 +675,7 @@ def gen_inputs(tier, rng):
         yield {"op": "bin", "m": m, "ss": ss, "arr": rand_subvalues(rng, tot, dt), "dt": dt, "via": rng.choice(["class", "util"]), "int": False}
         yield {"op": "areas", "m": m, "ps": ps, "ss": ss}
         yield {"op": "viafunc", "m": m, "ps": ps, "og": og, "ss": ss, "f": rand_fun(rng, m, ps, og, 0.5)}
+        yield rand_held(rng, m, ps, og, ss, exact=False)
         yield {"op": "decor", "m": m, "ps": ps, "og": og, "os": {"kind": "int", "s": rng.choice([3, 5, 6, 7])}, "f": rand_fun(rng, m, ps, og, 0.5), "via": "from_mask"}
 
 # ----------------------------------------------------------------------------- implementation calls
@@ -750,8 +832,8 @@ class Env:
                             lambda: OverSamplingIterate(fractional_accuracy=fl(os["thr"]), relative_accuracy=fl(os["rel"]),
                                                         sub_steps=tuple(os["steps"]) if ik else list(os["steps"])),
                             w_iter(fl(os["thr"]), fl(os["rel"]), os["steps"]))
-    def grid(self, os, via):
-        """the Grid2D a decorated method is called with"""
+    def grid(self, os, via, vals=None):
+        """the Grid2D a decorated method is called with; `vals` (via = shift_*): its values are NOT the pixel centres of its mask"""
         from autoarray.dataset.grids import GridsDataset
         from autoarray.dataset.over_sampling import OverSamplingDataset
         aa = self.aa
@@ -762,14 +844,20 @@ class Env:
                 slot = {"dataset": "uniform", "dataset_nu": "non_uniform", "dataset_pixgrid": "pixelization"}[via]
                 ds = self.ctx.get(["ds", self.mkey, oskey, slot], lambda: GridsDataset(mask=mask, over_sampling=OverSamplingDataset(**{slot: osobj})))
                 return getattr(ds, slot)
+            if via == "shift_dataset":
+                ds = self.ctx.get(["ds", self.mkey, oskey, "uniform"], lambda: GridsDataset(mask=mask, over_sampling=OverSamplingDataset(uniform=osobj)))
+                return ds.uniform + (np.array(vals) - np.array(ds.uniform))
             g = aa.Grid2D.from_mask(mask=mask, over_sampling=osobj)
+            if via == "shift_arith": return g + (np.array(vals) - np.array(g))            # e.g. grid - deflections
+            if via == "shift_rewrap": return aa.Grid2D(values=np.array(vals), mask=mask, over_sampling=osobj)
+            if via == "shift_subclass": return user_subclasses()[0](values=np.array(vals), mask=mask, over_sampling=osobj)
             # DERIVED grids (new objects carrying the over sampling of the grid they come from)
             if via == "derived_arith": g = (g + 0.0) * 1.0
             elif via == "derived_rewrap": g = aa.Grid2D(values=g, mask=g.mask, over_sampling=g.over_sampling)
             elif via == "derived_native_slim": g = g.native.slim
             elif via == "subclass": g = user_subclasses()[0](values=g, mask=g.mask, over_sampling=g.over_sampling)      # a user subclass of Grid2D
             return g
-        g = self.ctx.get(["grid", self.mkey, oskey, via], ctor)
+        g = self.ctx.get(["grid", self.mkey, oskey, via, vals.tolist() if vals is not None else None], ctor)
         snap = np.array(g).copy()
         self.ctx.watches.append(("grid values", g, lambda o: None if np.array_equal(np.array(o), snap) else "grid values"))
         return g
@@ -799,6 +887,48 @@ def classify_iter(f, env, os):
     allzero, band = iter_class(f, env.m, env.psq, env.ogq, thrq, os["steps"])
     return {"kind": "iter", "thr": thrq, "rel": relq, "steps": os["steps"]}, allzero, band
 
+def call_held(ctx, smp, st, n, ex):
+    """a decorated method called with Grid2DOverSampled(grid=<held points>, over_sampler=smp): returns (result, the held points as rationals).
+    Containers of the held points: Grid2DIrregular, the result of arithmetic on the sampler's own grid (over_sampled_grid - deflections),
+    a plain ndarray, a user subclass of Grid2DIrregular, a list of pairs"""
+    aa = import_aa(); Profile = profile_cls()
+    ptsf = np.array([[float(F(a)), float(F(b))] for a, b in st["pts"]]).reshape(-1, 2)
+    if st.get("read_first"): smp.over_sampled_grid
+    cont = st.get("cont") or "irr"
+    if cont == "arith": own = smp.over_sampled_grid; held = own + (ptsf - np.array(own))
+    elif cont == "nd": held = ptsf.copy()
+    elif cont == "list": held = [(float(a), float(b)) for a, b in ptsf]
+    elif cont == "irr_sub":
+        if not _IRRSUB:
+            class UserGrid2DIrregular(aa.Grid2DIrregular): pass
+            _IRRSUB.append(UserGrid2DIrregular)
+        held = _IRRSUB[0](values=ptsf.copy())
+    else: held = aa.Grid2DIrregular(values=ptsf.copy())
+    ptsq = qqlist(held)
+    if ex and ptsq != qqlist(ptsf): raise AssertionError("harness: the held grid does not hold the given points")
+    ctx.watches.append(("held", held, lambda o: None if qqlist(o) == ptsq else "the points held by the Grid2DOverSampled"))
+    god = oversampled_cls(bool(st.get("cls_sub")))(grid=held, over_sampler=smp, pixels_in_mask=n)
+    fn = np_ufun(st["f"])
+    prof = Profile(fn)
+    r = prof.image_2d_from(god)
+    try: same = qqlist(god.grid) == ptsq and god.over_sampler is smp and god.pixels_in_mask == n
+    except Exception: same = False
+    if not same: ctx.watches.append(("god", None, lambda o: "the Grid2DOverSampled no longer holds the points / over sampler it was built with"))
+    ag = st.get("again")
+    if ag and cont in ("irr", "nd", "irr_sub") and len(ptsq):
+        # read -> the user edits the held points IN PLACE (god.grid[i] = ...) -> the SAME profile called again with the SAME Grid2DOverSampled
+        ctx.watches[:] = [w for w in ctx.watches if not (w[0] == "held" and w[1] is held)]      # the held points are now edited on purpose
+        snap1 = qlist(r)
+        for i, dy, dx in ag:
+            i = i % len(ptsq); held[i] = (float(held[i][0]) + float(F(dy)), float(held[i][1]) + float(F(dx)))
+        ptsq2 = qqlist(held)
+        r2 = prof.image_2d_from(god)
+        if qlist(r) != snap1: ctx.watches.append(("r", None, lambda o: "the first result was changed by the second call on the same Grid2DOverSampled"))
+        ctx.watches.append(("held2", held, lambda o: None if qqlist(o) == ptsq2 else "the points held by the Grid2DOverSampled"))
+        return r, ptsq, (r2, ptsq2)
+    return r, ptsq, None
+_IRRSUB = []
+
 def run_one(inp, ctx):
     """one operation; returns dict(coq=<term of Model.C09.case> | None, out, finding, nontrivial, kind, skipped)"""
     from autoarray.operators.over_sampling import over_sample_util as U
@@ -810,7 +940,7 @@ def run_one(inp, ctx):
     Profile = profile_cls()
     op = inp["op"]; m = env.m; ps, og, psq, ogq, marr = env.ps, env.og, env.psq, env.ogq, env.marr
     ss = inp.get("ss"); ssa = np.array(ss, dtype=int) if ss is not None else None
-    out = None; coq = None; finding = None; nontrivial = True
+    out = None; coq = None; finding = None; nontrivial = True; extra = None
     ex = is_exact(inp.get("ps", ["1", "1"]), ss or [])
     def util_inputs_unchanged():
         if not np.array_equal(marr, np.array(m, dtype=bool)): return "mask array passed to the util function"
@@ -874,6 +1004,16 @@ def run_one(inp, ctx):
             r = smp.array_via_func_from(func, None if len(ss) % 2 else object())
         out = qlist(r); ctx.returned("array_via_func_from", r, qlist)
         coq = f"KViaFunc {cbool(ex)} {cmask(m)} {cqq(psq)} {cqq(ogq)} {cnats(ss)} {cufun(inp['f'])} {cqs(out)}"
+    elif op == "held":
+        smp = env.sampler(ss, inp.get("int", False))
+        r, ptsq, second = call_held(ctx, smp, inp, len(ss), ex)
+        out = qlist(r); ctx.returned("decorated array (Grid2DOverSampled)", r, qlist)
+        coq = f"KHeld {cbool(ex)} {cmask(m)} {cnats(ss)} {cqqs(ptsq)} {cufun(inp['f'])} {cqs(out)}"
+        if second is not None:
+            out2 = qlist(second[0]); ctx.returned("decorated array (Grid2DOverSampled, second call)", second[0], qlist)
+            extra = f"(KHeld {cbool(ex)} {cmask(m)} {cnats(ss)} {cqqs(second[1])} {cufun(inp['f'])} {cqs(out2)})"
+            out = [out, out2]
+        nontrivial = inp.get("hk") != "uniform"
     elif op in ("decor", "iter"):
         f = inp["f"]; fn = np_ufun(f)
         os = inp["os"] if op == "decor" else {"kind": "iter", "thr": inp["thr"], "rel": inp["rel"], "steps": inp["steps"]}
@@ -903,7 +1043,9 @@ def run_one(inp, ctx):
                                     else "OverSamplerIterate attributes")
             res = call_res(lambda: smp.array_via_func_from(func, None))
         else:
-            grid = env.grid(os, inp["via"])
+            valsf = np.array([[float(F(a)), float(F(b))] for a, b in inp["vals"]]).reshape(-1, 2) if inp.get("vals") is not None else None
+            grid = env.grid(os, inp["via"], valsf)
+            if valsf is not None and not np.array_equal(np.array(grid), valsf): raise AssertionError("harness: the shifted grid does not hold the given values")
             prof = ctx.get(["profile", f], lambda: Profile(fn))        # shared sequences: ONE profile object, several grids
             res = call_res(lambda: prof.image_2d_from(grid))
         if res[0] == "ok": ctx.returned("decorated / iterated array", res[1], qlist)
@@ -911,11 +1053,13 @@ def run_one(inp, ctx):
         if op == "iter":
             coq = (f"KIter {cmask(m)} {cqq(psq)} {cqq(ogq)} {copt(osq['thr'], cq)} {copt(osq['rel'], cq)} {cnats(os['steps'])} "
                    f"{cufun(f)} {cres(out, cqs)}")
+        elif inp.get("vals") is not None:
+            coq = f"KDecorVals {cbool(ex)} {cmask(m)} {cqq(psq)} {cqq(ogq)} {cqqs(qqlist(valsf))} {cos_(osq)} {cufun(f)} {cres(out, cqs)}"
         else:
             coq = f"KDecor {cbool(ex)} {cmask(m)} {cqq(psq)} {cqq(ogq)} {cos_(osq)} {cufun(f)} {cres(out, cqs)}"
     else:
         raise ValueError(op)
-    return {"coq": "(" + coq + ")", "out": jsonable(out), "finding": finding, "nontrivial": nontrivial, "kind": op, "skipped": False}
+    return {"coq": "(" + coq + ")", "out": jsonable(out), "finding": finding, "nontrivial": nontrivial, "kind": op, "skipped": False, "extra": extra}
 
 def run_hsampler(inp, ctx):
     """ONE OverSamplerUniform: cached reads, binning, functions, in-place edits of the sub-size map"""
@@ -954,6 +1098,12 @@ def run_hsampler(inp, ctx):
             else:
                 r = smp.array_via_func_from(func, None if st.get("obj") is None else object())
             o = qlist(r); ctx.returned("array_via_func_from", r, qlist); terms.append(f"CVia {cufun(st['f'])} {cqs(o)}")
+        elif do == "held":
+            r, ptsq, second = call_held(ctx, smp, st, len(cur), ex)
+            o = qlist(r); ctx.returned("decorated array (Grid2DOverSampled)", r, qlist); terms.append(f"CHeld {cqqs(ptsq)} {cufun(st['f'])} {cqs(o)}")
+            if second is not None:
+                o2 = qlist(second[0]); ctx.returned("decorated array (Grid2DOverSampled, second call)", second[0], qlist)
+                terms.append(f"CHeld {cqqs(second[1])} {cufun(st['f'])} {cqs(o2)}"); o = [o, o2]
         elif do == "edit":     # the user edits the map in place: sub_size[i] = s
             smp.sub_size[st["i"]] = st["s"]; cur[st["i"]] = st["s"]; o = None
             terms.append(f"CEdit {cnat(st['i'])} {cnat(st['s'])}")
@@ -998,6 +1148,7 @@ def run_case(inp):
             r = run_one(st, ctx)
             if r["skipped"]: continue
             terms.append(r["coq"]); outs.append(r["out"]); finding = finding or r["finding"]
+            if r.get("extra"): terms.append(r["extra"])
         if not terms: return {"coq": None, "out": None, "py_ok": None, "nontrivial": False, "kind": "seq-skipped-in-band"}
         coq = f"(HSeq {clist(terms)})"; out = outs
         kind = "seq-shared" if inp.get("share") else "seq-fresh"
@@ -1009,7 +1160,8 @@ def run_case(inp):
     else:
         r = run_one(inp, ctx)
         if r["skipped"]: return {"coq": None, "out": None, "py_ok": None, "nontrivial": False, "kind": r["kind"]}
-        coq = f"(HOne {r['coq']})"; out = r["out"]; finding = r["finding"]; nontrivial = r["nontrivial"]
+        coq = f"(HSeq [{r['coq']}; {r['extra']}])" if r.get("extra") else f"(HOne {r['coq']})"
+        out = r["out"]; finding = r["finding"]; nontrivial = r["nontrivial"]
     bad = ctx.problems()
     r = {"coq": coq, "out": out, "py_ok": False if bad else None, "nontrivial": nontrivial, "kind": kind}
     if bad: r["detail"] = "; ".join(bad[:4])
